@@ -1,0 +1,452 @@
+//go:build verif
+
+package protowire
+
+import "io"
+
+// Contracts for encoding/protowire (properties C01, C02).
+//
+// Spec functions are written from the encoding document
+// (https://protobuf.dev/programming-guides/encoding) and from the property
+// statements, not from the code. contract_F(recv, params...) (results...) is
+// the contract of F: requires/ensures/modifies* clauses over its parameters
+// (entry values) and named results. lemma_* functions are proved like ordinary
+// functions; their ensures clauses are the property clauses.
+
+// ---------------------------------------------------------------- spec: varints
+
+// specVlen is the length of the shortest varint encoding of v: the least k in
+// 1..10 such that v < 2^(7k).
+func specVlen(v uint64) int {
+	if v < 1<<7 {
+		return 1
+	}
+	if v < 1<<14 {
+		return 2
+	}
+	if v < 1<<21 {
+		return 3
+	}
+	if v < 1<<28 {
+		return 4
+	}
+	if v < 1<<35 {
+		return 5
+	}
+	if v < 1<<42 {
+		return 6
+	}
+	if v < 1<<49 {
+		return 7
+	}
+	if v < 1<<56 {
+		return 8
+	}
+	if v < 1<<63 {
+		return 9
+	}
+	return 10
+}
+
+// specVbyte is byte k of the shortest varint encoding of v: 7-bit group k,
+// with the continuation bit set on all but the last byte.
+func specVbyte(v uint64, k int) byte {
+	g := byte(v>>(7*uint(k))) & 0x7f
+	if k < specVlen(v)-1 {
+		return g | 0x80
+	}
+	return g
+}
+
+// specVarintLen parses the varint grammar at the start of b: bytes with the
+// continuation bit, ended by one without; at most 10 bytes, the tenth being 0
+// or 1. It returns the length, or the error code of the first defect.
+func specVarintLen(b []byte) int { return specVarintScan(b, 0) }
+
+//@ unfold 10
+func specVarintScan(b []byte, i int) int {
+	if i >= len(b) {
+		return errCodeTruncated
+	}
+	if i == 9 {
+		if b[9] < 2 {
+			return 10
+		}
+		return errCodeOverflow
+	}
+	if b[i] < 0x80 {
+		return i + 1
+	}
+	return specVarintScan(b, i+1)
+}
+
+// specVarintVal is the value of the n-byte varint at the start of b:
+// the sum of the 7-bit groups, least significant first.
+func specVarintVal(b []byte, n int) uint64 { return specVarintSum(b, n, 0) }
+
+//@ unfold 10
+func specVarintSum(b []byte, n, i int) uint64 {
+	if i >= n || i >= 10 {
+		return 0
+	}
+	return uint64(b[i]&0x7f)<<(7*uint(i)) + specVarintSum(b, n, i+1)
+}
+
+// specTagOK: a tag value carries a field number in 1..MaxInt32 (the protowire
+// layer accepts MessageSet-sized numbers; proto.Unmarshal narrows further).
+func specTagOK(v uint64) bool { return v>>3 >= 1 && v>>3 <= 1<<31-1 }
+
+// specTagLen parses a tag: a varint whose field number is valid.
+func specTagLen(b []byte) int {
+	n := specVarintLen(b)
+	if n < 0 {
+		return n
+	}
+	if !specTagOK(specVarintVal(b, n)) {
+		return errCodeFieldNumber
+	}
+	return n
+}
+
+// specBytesLen parses a length-delimited payload: varint length m, then m bytes.
+func specBytesLen(b []byte) int {
+	n := specVarintLen(b)
+	if n < 0 {
+		return n
+	}
+	m := specVarintVal(b, n)
+	if m > uint64(len(b)-n) {
+		return errCodeTruncated
+	}
+	return n + int(m)
+}
+
+// ---------------------------------------------------------------- contracts: sizes and scalar codecs
+
+//@ props C01
+func contract_SizeVarint(v uint64) (n int) {
+	ensures(n == specVlen(v))
+	return
+}
+
+//@ props C01
+func contract_SizeFixed32() (n int) {
+	ensures(n == 4)
+	return
+}
+
+//@ props C01
+func contract_SizeFixed64() (n int) {
+	ensures(n == 8)
+	return
+}
+
+//@ props C01
+func contract_SizeBytes(n int) (r int) {
+	ensures(r == specVlen(uint64(n))+n)
+	return
+}
+
+//@ props C01
+func contract_SizeTag(num Number) (r int) {
+	ensures(r == specVlen(uint64(num)<<3))
+	return
+}
+
+//@ props C01
+func contract_SizeGroup(num Number, n int) (r int) {
+	ensures(r == n+specVlen(uint64(num)<<3))
+	return
+}
+
+//@ props C01
+func contract_EncodeZigZag(x int64) (u uint64) {
+	// zig-zag: 2x for x >= 0, -2x-1 for x < 0
+	ensures(imp(x >= 0, u == uint64(x)*2))
+	ensures(imp(x < 0, u == uint64(-(x+1))*2+1))
+	return
+}
+
+//@ props C01
+func contract_DecodeZigZag(u uint64) (x int64) {
+	ensures(imp(u%2 == 0, x == int64(u/2)))
+	ensures(imp(u%2 == 1, x == -int64(u/2)-1))
+	return
+}
+
+//@ props C01
+func contract_EncodeBool(x bool) (u uint64) {
+	ensures(imp(x, u == 1))
+	ensures(imp(!x, u == 0))
+	return
+}
+
+//@ props C01
+func contract_DecodeBool(u uint64) (x bool) {
+	ensures(x == (u != 0))
+	return
+}
+
+//@ props C01 C02
+func contract_EncodeTag(num Number, typ Type) (x uint64) {
+	ensures(x == uint64(num)<<3|uint64(typ&7))
+	return
+}
+
+//@ props C01 C02
+func contract_DecodeTag(x uint64) (num Number, typ Type) {
+	ensures(imp(x>>3 <= 1<<31-1, num == Number(x>>3) && typ == Type(x&7)))
+	ensures(imp(x>>3 > 1<<31-1, num == -1 && typ == 0))
+	return
+}
+
+//@ props C02
+func contract_Number_IsValid(n Number) (ok bool) {
+	ensures(ok == (1 <= n && n <= 1<<29-1))
+	return
+}
+
+// ---------------------------------------------------------------- contracts: append
+
+//@ props C01
+func contract_AppendVarint(b []byte, v uint64) (r []byte) {
+	modifiesTail(b)
+	ensures(freshSlice(r) || sameArray(r, b)) // extended in place, or reallocated
+	ensures(len(r) == len(b)+specVlen(v))
+	ensures(forall(0, len(b), func(i int) bool { return r[i] == old(b[i]) }))
+	ensures(forall(0, specVlen(v), func(k int) bool { return r[len(b)+k] == specVbyte(v, k) }))
+	return
+}
+
+//@ props C01
+func contract_AppendFixed32(b []byte, v uint32) (r []byte) {
+	modifiesTail(b)
+	ensures(freshSlice(r) || sameArray(r, b)) // extended in place, or reallocated
+	ensures(len(r) == len(b)+4)
+	ensures(forall(0, len(b), func(i int) bool { return r[i] == old(b[i]) }))
+	ensures(forall(0, 4, func(k int) bool { return r[len(b)+k] == byte(v>>(8*uint(k))) }))
+	return
+}
+
+//@ props C01
+func contract_AppendFixed64(b []byte, v uint64) (r []byte) {
+	modifiesTail(b)
+	ensures(freshSlice(r) || sameArray(r, b)) // extended in place, or reallocated
+	ensures(len(r) == len(b)+8)
+	ensures(forall(0, len(b), func(i int) bool { return r[i] == old(b[i]) }))
+	ensures(forall(0, 8, func(k int) bool { return r[len(b)+k] == byte(v>>(8*uint(k))) }))
+	return
+}
+
+//@ props C01
+func contract_AppendTag(b []byte, num Number, typ Type) (r []byte) {
+	modifiesTail(b)
+	ensures(freshSlice(r) || sameArray(r, b)) // extended in place, or reallocated
+	ensures(len(r) == len(b)+specVlen(uint64(num)<<3|uint64(typ&7)))
+	ensures(forall(0, len(b), func(i int) bool { return r[i] == old(b[i]) }))
+	ensures(forall(0, specVlen(uint64(num)<<3|uint64(typ&7)), func(k int) bool {
+		return r[len(b)+k] == specVbyte(uint64(num)<<3|uint64(typ&7), k)
+	}))
+	return
+}
+
+//@ props C01
+//@ mode int
+func contract_AppendBytes(b []byte, v []byte) (r []byte) {
+	requires(disjointFromTail(v, b)) // the payload must not live in the buffer's spare capacity
+	modifiesTail(b)
+	ensures(freshSlice(r) || sameArray(r, b)) // extended in place, or reallocated
+	ensures(len(r) == len(b)+specVlen(uint64(len(v)))+len(v))
+	ensures(forall(0, len(b), func(i int) bool { return r[i] == old(b[i]) }))
+	ensures(forall(0, specVlen(uint64(len(v))), func(k int) bool { return r[len(b)+k] == specVbyte(uint64(len(v)), k) }))
+	ensures(forall(0, len(v), func(k int) bool { return r[len(b)+specVlen(uint64(len(v)))+k] == old(v[k]) }))
+	return
+}
+
+//@ props C01
+//@ mode int
+func contract_AppendString(b []byte, v string) (r []byte) {
+	modifiesTail(b)
+	ensures(freshSlice(r) || sameArray(r, b)) // extended in place, or reallocated
+	ensures(len(r) == len(b)+specVlen(uint64(len(v)))+len(v))
+	ensures(forall(0, len(b), func(i int) bool { return r[i] == old(b[i]) }))
+	ensures(forall(0, specVlen(uint64(len(v))), func(k int) bool { return r[len(b)+k] == specVbyte(uint64(len(v)), k) }))
+	ensures(forall(0, len(v), func(k int) bool { return r[len(b)+specVlen(uint64(len(v)))+k] == v[k] }))
+	return
+}
+
+//@ props C01
+//@ mode int
+func contract_AppendGroup(b []byte, num Number, v []byte) (r []byte) {
+	requires(disjointFromTail(v, b))
+	modifiesTail(b)
+	ensures(freshSlice(r) || sameArray(r, b)) // extended in place, or reallocated
+	ensures(len(r) == len(b)+len(v)+specVlen(uint64(num)<<3|4))
+	ensures(forall(0, len(b), func(i int) bool { return r[i] == old(b[i]) }))
+	ensures(forall(0, len(v), func(k int) bool { return r[len(b)+k] == old(v[k]) }))
+	ensures(forall(0, specVlen(uint64(num)<<3|4), func(k int) bool {
+		return r[len(b)+len(v)+k] == specVbyte(uint64(num)<<3|4, k)
+	}))
+	return
+}
+
+// ---------------------------------------------------------------- contracts: consume
+
+//@ props C01 C02
+func contract_ConsumeVarint(b []byte) (v uint64, n int) {
+	ensures(n == specVarintLen(b))
+	ensures(imp(n > 0, v == specVarintVal(b, n)))
+	ensures(imp(n < 0, v == 0))
+	// summary used by callers: never reports more than the input holds
+	ensures(n == errCodeTruncated || n == errCodeOverflow || (1 <= n && n <= 10 && n <= len(b)))
+	return
+}
+
+//@ props C01 C02
+func contract_ConsumeFixed32(b []byte) (v uint32, n int) {
+	ensures(imp(len(b) < 4, n == errCodeTruncated && v == 0))
+	ensures(imp(len(b) >= 4, n == 4 && v == uint32(b[0])|uint32(b[1])<<8|uint32(b[2])<<16|uint32(b[3])<<24))
+	return
+}
+
+//@ props C01 C02
+func contract_ConsumeFixed64(b []byte) (v uint64, n int) {
+	ensures(imp(len(b) < 8, n == errCodeTruncated && v == 0))
+	ensures(imp(len(b) >= 8, n == 8 && v == uint64(b[0])|uint64(b[1])<<8|uint64(b[2])<<16|uint64(b[3])<<24|
+		uint64(b[4])<<32|uint64(b[5])<<40|uint64(b[6])<<48|uint64(b[7])<<56))
+	return
+}
+
+//@ props C01 C02
+func contract_ConsumeTag(b []byte) (num Number, typ Type, n int) {
+	ensures(n == specTagLen(b))
+	ensures(imp(n > 0, num == Number(specVarintVal(b, n)>>3) && typ == Type(specVarintVal(b, n)&7)))
+	ensures(imp(n > 0, num >= 1 && 0 <= typ && typ <= 7))
+	ensures(imp(n < 0, num == 0 && typ == 0))
+	ensures(n == errCodeTruncated || n == errCodeOverflow || n == errCodeFieldNumber || (1 <= n && n <= 10 && n <= len(b)))
+	return
+}
+
+//@ props C01 C02
+func contract_ConsumeBytes(b []byte) (v []byte, n int) {
+	ensures(n == specBytesLen(b))
+	ensures(imp(n < 0, v == nil))
+	// the payload is the sub-slice between the length prefix and n
+	ensures(imp(n > 0, sameBase(v, b) && len(v) == n-specVarintLen(b) && uint64(len(v)) == specVarintVal(b, specVarintLen(b))))
+	ensures(imp(n > 0, forall(0, len(v), func(k int) bool { return v[k] == b[specVarintLen(b)+k] })))
+	ensures(n == errCodeTruncated || n == errCodeOverflow || (1 <= n && n <= len(b)))
+	return
+}
+
+//@ props C01 C02
+//@ mode int
+func contract_ConsumeString(b []byte) (v string, n int) {
+	ensures(n == specBytesLen(b))
+	ensures(imp(n < 0, v == ""))
+	ensures(imp(n > 0, len(v) == n-specVarintLen(b) && uint64(len(v)) == specVarintVal(b, specVarintLen(b))))
+	ensures(imp(n > 0, forall(0, len(v), func(k int) bool { return v[k] == b[specVarintLen(b)+k] })))
+	return
+}
+
+//@ props C02
+func contract_ParseError(n int) (err error) {
+	ensures(iff(err == nil, n >= 0))
+	ensures(imp(n == errCodeTruncated, err == io.ErrUnexpectedEOF))
+	ensures(imp(n == errCodeFieldNumber, err == errFieldNumber))
+	ensures(imp(n == errCodeOverflow, err == errOverflow))
+	ensures(imp(n == errCodeReserved, err == errReserved))
+	ensures(imp(n == errCodeEndGroup, err == errEndGroup))
+	ensures(imp(n < errCodeRecursionDepth || n == errCodeRecursionDepth, err == errParse))
+	return
+}
+
+// ---------------------------------------------------------------- lemmas: round trips (C01)
+
+//@ props C01
+func lemma_ZigZagRoundTrip(x int64, u uint64) {
+	ensures(DecodeZigZag(EncodeZigZag(x)) == x)
+	ensures(EncodeZigZag(DecodeZigZag(u)) == u)
+}
+
+//@ props C01
+func lemma_BoolRoundTrip(x bool, u uint64) {
+	ensures(DecodeBool(EncodeBool(x)) == x)
+	ensures(imp(u <= 1, EncodeBool(DecodeBool(u)) == u))
+}
+
+//@ props C01
+func lemma_TagRoundTrip(num Number, typ Type, x uint64) {
+	if 0 <= num && 0 <= typ && typ <= 7 {
+		n2, t2 := DecodeTag(EncodeTag(num, typ))
+		ensures(n2 == num && t2 == typ)
+	}
+	if x>>3 <= 1<<31-1 {
+		n3, t3 := DecodeTag(x)
+		ensures(EncodeTag(n3, t3) == x)
+	}
+}
+
+//@ props C01
+//@ inline AppendVarint ConsumeVarint
+func lemma_VarintRoundTrip(b []byte, v uint64) {
+	r := AppendVarint(b, v)
+	w, n := ConsumeVarint(r[len(b):])
+	ensures(n == SizeVarint(v))
+	ensures(n == len(r)-len(b))
+	ensures(w == v)
+}
+
+//@ props C01
+func lemma_Fixed32RoundTrip(b []byte, v uint32) {
+	r := AppendFixed32(b, v)
+	w, n := ConsumeFixed32(r[len(b):])
+	ensures(n == SizeFixed32() && n == len(r)-len(b) && w == v)
+}
+
+//@ props C01
+func lemma_Fixed64RoundTrip(b []byte, v uint64) {
+	r := AppendFixed64(b, v)
+	w, n := ConsumeFixed64(r[len(b):])
+	ensures(n == SizeFixed64() && n == len(r)-len(b) && w == v)
+}
+
+//@ props C01
+func lemma_TagWireRoundTrip(b []byte, num Number, typ Type) {
+	requires(1 <= num && 0 <= typ && typ <= 7)
+	r := AppendTag(b, num, typ)
+	n2, t2, n := ConsumeTag(r[len(b):])
+	ensures(n == SizeTag(num) && n == len(r)-len(b))
+	ensures(n2 == num && t2 == typ)
+}
+
+// lemma_SpecVarintInverse: a byte sequence that starts with the shortest
+// encoding of v parses (per the grammar) to exactly that length and value.
+//
+//@ props C01
+func lemma_SpecVarintInverse(s []byte, v uint64) {
+	requires(len(s) >= specVlen(v))
+	requires(forall(0, specVlen(v), func(k int) bool { return s[k] == specVbyte(v, k) }))
+	ensures(specVarintLen(s) == specVlen(v))
+	ensures(specVarintVal(s, specVlen(v)) == v)
+}
+
+//@ props C01
+//@ mode int
+func lemma_BytesRoundTrip(b []byte, v []byte) {
+	requires(disjointFromTail(v, b))
+	r := AppendBytes(b, v)
+	lemma_SpecVarintInverse(r[len(b):], uint64(len(v)))
+	w, n := ConsumeBytes(r[len(b):])
+	ensures(n == SizeBytes(len(v)) && n == len(r)-len(b))
+	ensures(bytesEq(w, v))
+}
+
+//@ props C01
+//@ mode int
+func lemma_StringRoundTrip(b []byte, v string) {
+	r := AppendString(b, v)
+	lemma_SpecVarintInverse(r[len(b):], uint64(len(v)))
+	w, n := ConsumeString(r[len(b):])
+	ensures(n == SizeBytes(len(v)) && n == len(r)-len(b))
+	ensures(w == v)
+}
